@@ -106,3 +106,21 @@ theorem sq_tan_quarter_over_x_zero : SqSeries.tan_quarter_over_x (0:ℝ) = 1 / 4
   simp [cas_series, cas_real]; norm_num
 
 end SeriesLemmas
+
+namespace SeriesLemmas
+open Gen
+
+theorem sq_four_atan_over_x_closed {u : ℝ} (hu : eps ≤ u) :
+    SqSeries.four_atan_over_x u = 4 * Real.arctan (Real.sqrt u) / Real.sqrt u := by
+  have hpos : 0 < u := lt_of_lt_of_le eps_pos hu
+  have hn : ¬ |u| < 1152921504606847 * (2:ℝ) ^ (-60:ℤ) := by
+    rw [abs_of_pos hpos]; unfold eps at hu; linarith
+  simp only [cas_series, cas_real]
+  rw [if_neg hn, rpow_neg_half hpos]; ring
+
+theorem x_over_sin_x_closed {x : ℝ} (hx : eps ≤ |x|) : Series.x_over_sin_x x = x / Real.sin x := by
+  have hn : ¬ |x| < 1152921504606847 * (2:ℝ) ^ (-60:ℤ) := by unfold eps at hx; exact not_lt.mpr hx
+  simp only [cas_series, cas_real]
+  rw [if_neg hn]
+
+end SeriesLemmas
